@@ -34,6 +34,11 @@ LOGIN_PLUGIN_FROM = 385
 #  - between 1.13-pre3 (385) and 1.13-pre8 (390) the new plugin packets sat at id 0x00 and every other login packet was
 #    shifted up by one; from 1.13-pre9 (391) on they are 0x04 / 0x02 and the old numbering is back.
 LOGIN_SHIFT_UNTIL = 391
+#  - clientbound player-position-and-look: x, y, z (doubles), yaw, pitch (floats), flags (byte); a VarInt teleport id from
+#    15w42a / 1.9 (protocol 107) on; a trailing "dismount vehicle" boolean from 1.17 (protocol 755) on.  In publication order:
+#    the 1.17 snapshots pyCraft supports (20w45a .. 20w48a) precede the addition of that boolean.
+TELEPORT_ID_FROM = 107
+DISMOUNT_FROM = 755
 
 
 def login_ids(p):
